@@ -314,6 +314,12 @@ func (s *Stream) ReceiveFrame(ctx context.Context) ([]byte, error) {
 
 	// Handle zero-length messages
 	if messageLength == 0 {
+		// A protected frame always carries at least the 16-byte GCM tag, so an
+		// empty frame on an encrypting stream was not produced by the peer's
+		// cipher. Reject it instead of handing out unauthenticated framing.
+		if s.gcm != nil && s.encrypted {
+			return nil, fmt.Errorf("unauthenticated empty frame on encrypted stream")
+		}
 		return []byte{}, nil
 	}
 
@@ -369,6 +375,12 @@ func (s *Stream) ReceiveFrameWithEnd(ctx context.Context) ([]byte, byte, error) 
 
 	// Handle zero-length messages
 	if messageLength == 0 {
+		// A protected frame always carries at least the 16-byte GCM tag, so an
+		// empty frame on an encrypting stream was not produced by the peer's
+		// cipher. Reject it instead of letting it end (or be taken for) a message.
+		if s.gcm != nil && s.encrypted {
+			return nil, 0, fmt.Errorf("unauthenticated empty frame on encrypted stream")
+		}
 		// Track header for AAD digest calculation
 		if s.recvDigest != nil && s.finalRecvDigest == nil {
 			s.recvDigest.Write(header)
